@@ -239,10 +239,10 @@ def apply_obligations(ctx, R, prover, pid):
     eff = fsmodels.effects(ex)
     copies = [e for e in eff if e["call"] == "copy"]
     renames = [e for e in eff if e["call"] == "rename"]
-    removes = [e for e in eff if e["call"] == "remove_file"]
+    removes = [e for e in eff if e["call"] in ("remove_file", "remove_dir_all")]
     inserts = [e for e in eff if e["call"] == "map-insert"]
     mremoves = [e for e in eff if e["call"] == "map-remove"]
-    fsreq = [e for e in eff if e["call"] in ("copy", "rename", "remove_file", "create", "write", "create_dir_all")]
+    fsreq = [e for e in eff if e["call"] in ("copy", "rename", "remove_file", "remove_dir_all", "create", "write", "create_dir_all")]
     is_ = lambda n: d == A[n]
     both = z3.And(is_("Conflict"), kd == CK["BothChanged"])
     dvm = z3.And(is_("Conflict"), kd == CK["DeleteVsModify"])
